@@ -22,6 +22,7 @@ RULE = ("harness-built cover-labelled networks: N 8..16 vertices, 5..12 motifs f
         "points + random; iterations in {1,2,3,5,25,60}; histories of 10..40 queries per object in random, ascending and descending phi order with "
         "repeats; every case then evaluates a SECOND network (same motif ids and vertex labelling, other shapes) with a new object in the same process; non-trivial = giant-component fraction > 1e-3 at some fast-convergence phi; distinct = SHA-1 of the labelled network")
 RULE += ("; rounds k-l added: " + 'island components on vertices of their own in 40% of the networks: closed ones without a degree-1 vertex (triangle, 4-cycle, K4, two triangles sharing a vertex) next to open ones (single edge, tadpole)')
+RULE += '; round n: two nearly coincident phi values (relative offset 3e-9 .. 4e-7) in every query history, each compared with a fresh object'
 ASSUMPTIONS = ["equality with the reference fixed point is asserted only at phi where the reference converges to 1e-13 within 20 sweeps under four different in-place update orders (forward, reverse, two random) and all four agree (fast, order-independent points), at 1e-6; where the equations have several fixed points the property does not say which update order selects 'the' fixed point",
                "label format f'{k}-{vertices}-{edges}-{id}' as the mixin parses it; vertex ids are non-negative ints",
                "`_H_tau` residual check is auxiliary (hasattr-guarded)"]
@@ -256,6 +257,15 @@ def run_case(case):
             elif order == "descending":
                 qs.sort(reverse=True)
             qs += [qs[0], qs[len(qs) // 2]]
+            # two values of phi that nearly coincide (a fine sweep, a bisection): 6 .. 9 equal leading digits, different answers
+            near = set()
+            for _ in range(2):
+                base = rng.choice([q for q in qs if 0.05 < q < 0.95] or [0.5])
+                twin = min(1.0, base * (1 + rng.choice([4e-7, 3e-9, -2e-8])))
+                if twin != base:
+                    qs.insert(qs.index(base) + 1, twin)
+                    near.add(twin)
+                    res.count("nearly_coincident_phi_queries")
             seen = {}
             for phi in qs:
                 if rng.random() < 0.1:
@@ -270,7 +280,7 @@ def run_case(case):
                     res.violate("value-outside-[0,1]", phi=phi, iterations=iters, got=a, ctx=ctx); break
                 if phi in seen and abs(seen[phi] - a) > 1e-12:
                     res.violate("repeated-query-gives-a-different-answer", phi=phi, iterations=iters, first=seen[phi], again=a, history=qs, ctx=ctx); break
-                if phi not in seen and (len(seen) < 5 or case["grid"] > 11):
+                if phi not in seen and (len(seen) < 5 or phi in near or case["grid"] > 11):
                     fresh = sut("MessagePassing(fresh)", gcmpy.MessagePassing, G, iterations=iters)
                     b = sut("theoretical(fresh)", fresh.theoretical, phi)
                     res.count("reuse_vs_fresh_checks")
